@@ -101,6 +101,27 @@ class SiteCx:
                 # the symbol Lin.form gives to `(h as Some).0` / `(h as Continue).0`
                 out.append({"pay:_%d.0" % h: 1, ln: -1, 1: 1})
                 out.append({"pay:_%d.0" % h: -1, 1: 0})  # an index is not negative
+        # `s.get(a..b)` is Some(sub) only with len(sub) == b - a
+        from linear import lf_add as _add
+        for bi, t in b.calls(r"slice::<impl \[T\]>::get$|str>::get$"):
+            rg = b.origin_def(t["args"][1])
+            if not (rg and rg[0] == "def" and rg[1]["kind"] == "assign" and str(rg[1]["stmt"]["rv"].get("adt", "")).endswith("ops::Range")):
+                continue
+            ops = rg[1]["stmt"]["rv"]["ops"]
+            s_, e_ = self.lin.form(ops[0]), self.lin.form(ops[1])
+            if s_ is None or e_ is None:
+                continue
+            holders = [t["dest"]["local"]]
+            for tb, tt in b.calls(r"ops::Try::branch$"):
+                od = b.origin_def(tt["args"][0])
+                if od and od[0] == "def" and od[1]["kind"] == "call" and od[1]["block"] == bi:
+                    holders.append(tt["dest"]["local"])
+            for h in holders:
+                for vn in ("Some", "Continue"):
+                    ln = {"len((_%d as %s).0)" % (h, vn): 1, 1: 0}
+                    diff = _add(e_, s_, -1)
+                    out.append(_add(ln, diff, -1))       # len - (e - s) <= 0
+                    out.append(_add(diff, ln, -1))       # (e - s) - len <= 0
         self._ofacts = out
         return out
 
@@ -591,7 +612,9 @@ def d_unwrap(cx, bi, t):
                         if isc:
                             pl = op_place(od2[1]["stmt"]["rv"]["op"])
                             src_ty = pb.local_ty(pl["local"]) if pl and not pl["proj"] else None
-                        if not isc or src_ty != "u8":
+                        # `char::from(b)` is the same widening as `b as char`
+                        isf = bool(od2 and od2[0] == "def" and od2[1]["kind"] == "call" and re.search(r"<char as std::convert::From<u8>>::from$|impl std::convert::From<u8> for char>::from$", od2[1]["term"].get("resolved_full", "")))
+                        if not ((isc and src_ty == "u8") or isf):
                             okd = False
                     if pb.calls(r"String::push_str$|String::from$|Extend::extend$|String::insert\w*$"):
                         okd = False
@@ -607,6 +630,13 @@ def d_unwrap(cx, bi, t):
         return None
     if re.search(r"io::Write::write_fmt$", oc) and "<std::vec::Vec<u8> as std::io::Write>" in ofull:
         return ("infallible-writer", "io::Write for Vec<u8> never fails")
+    if re.search(r"convert::(TryInto::try_into|TryFrom::try_from)$", oc):
+        m = re.search(r"(TryInto|TryFrom)<&?\[u8; (\d+)\]>", ofull) or re.search(r"<\[u8; (\d+)\] as std::convert::TryFrom", ofull)
+        n = cx.static_len(ot["args"][0])
+        want = int(m.group(m.lastindex)) if m else None
+        if n is not None and want is not None and n == want:
+            return ("array-len-types", "slice of a %d-byte array converted to [u8; %d]: lengths equal by type" % (n, want))
+        return None
     if re.search(r"fmt::Write::write_fmt$", oc) and "<std::string::String as std::fmt::Write>" in ofull:
         return ("infallible-writer", "fmt::Write for String never fails")
     if re.search(r"Builder::build$", oc) and ot.get("resolved_local"):
@@ -721,21 +751,22 @@ _C06 = {}
 
 
 def c06_holds(cx):
-    key = id(cx.ctx.facts)
-    if key not in _C06:
+    # cached on the fact base itself (an id()-keyed table would hand a recycled id the verdict of another tree)
+    f = cx.ctx.facts
+    if getattr(f, "_c06_holds", None) is None:
         import c06
         from registry import Ctx
 
-        res = list(c06.r3(Ctx(cx.ctx.facts, None, "quick", cx.ctx.repo)))
-        _C06[key] = all(r.status == "PASS" for r in res)
-    return _C06[key]
+        res = list(c06.r3(Ctx(f, None, "quick", cx.ctx.repo)))
+        f._c06_holds = all(r.status == "PASS" for r in res)
+    return f._c06_holds
 
 
 def d_call(cx, bi, t):
     b = cx.b
     c = t["callee"]
-    if b.path in ("<signing_key::KSecretKey as std::convert::AsRef<[u8]>>::as_ref", "<signing_key::KSecretKey<M> as std::str::FromStr>::from_str") and re.search(r"ops::Index(Mut)?::index(_mut)?$|copy_from_slice$", c):
-        r0 = d_index(cx, bi, t) if "index" in c else d_copy(cx, bi, t)
+    if b.path in ("<signing_key::KSecretKey as std::convert::AsRef<[u8]>>::as_ref", "<signing_key::KSecretKey<M> as std::str::FromStr>::from_str") and re.search(r"ops::Index(Mut)?::index(_mut)?$|copy_from_slice$|split_at_mut$", c):
+        r0 = d_index(cx, bi, t) if "index" in c else d_copy(cx, bi, t) if "copy" in c else None
         if r0:
             return r0
         if c06_holds(cx):
@@ -922,9 +953,15 @@ def d_panic_call(cx, bi, t):
 
 def site_key(cx, bi, t, ordinals):
     b = cx.b
+    bpath = b.path
+    # the initialiser of a lazily initialised static is the same code whether it is written with lazy_static! or
+    # std::sync::LazyLock: key it by the static
+    m_ = re.match(r"^<(.*) as std::ops::Deref>::deref::__static_ref_initialize$", bpath) or re.match(r"^(.*)::\{closure#0\}$", bpath)
+    if m_ and any(s_["path"] == m_.group(1) or s_["path"].startswith(m_.group(1) + "::") for s_ in cx.ctx.facts.statics):
+        bpath = "<%s as std::ops::Deref>::deref::__static_ref_initialize" % m_.group(1)
     if t["k"] == "assert":
         ops = [lf_str(cx.lin.form(o) or {"?": 1}) for o in t["ops"]]
-        base = "%s/%s(%s)" % (b.path, t["kind"], ", ".join(ops))
+        base = "%s/%s(%s)" % (bpath, t["kind"], ", ".join(ops))
     else:
         c = t["callee"]
         short = "::".join(c.split("::")[-2:])
@@ -942,7 +979,7 @@ def site_key(cx, bi, t, ordinals):
             v = const_value(op_const(b.resolve_copy(t["args"][1])) or {})
             if isinstance(v, int):
                 det += "[%d]" % v
-        base = "%s/%s%s" % (b.path, short, det)
+        base = "%s/%s%s" % (bpath, short, det)
     n = ordinals.get(base, 0)
     ordinals[base] = n + 1
     return base if n == 0 else "%s#%d" % (base, n)
